@@ -172,8 +172,8 @@ SPEC = dict(
     module="LMFootprint.C06",
     harness_bin="footprint",
     ml_modules=["footprint_model"],
-    n={"quick": 2000, "thorough": 40000},
-    search_n={"quick": 6000, "thorough": 40000},
+    n={"quick": 2000, "thorough": 25000},
+    search_n={"quick": 6000, "thorough": 30000},
     nontrivial=nontrivial,
     histogram=histogram,
     signature=signature,
